@@ -387,8 +387,8 @@ S_MISC = st.fixed_dictionaries({
 def tests(tier):
     from props import c10_more
     return [
-        Test("cipher", S_CIPHER, run_cipher, {"quick": 6000, "thorough": 120000}, CFG),
-        Test("mac", S_MAC, run_mac, {"quick": 6000, "thorough": 120000}, CFG),
-        Test("aead", S_AEAD, run_aead, {"quick": 4000, "thorough": 80000}, CFG),
-        Test("misc", S_MISC, run_misc, {"quick": 2500, "thorough": 50000}, CFG),
+        Test("cipher", S_CIPHER, run_cipher, {"quick": 15000, "thorough": 150000}, CFG),
+        Test("mac", S_MAC, run_mac, {"quick": 15000, "thorough": 150000}, CFG),
+        Test("aead", S_AEAD, run_aead, {"quick": 10000, "thorough": 100000}, CFG),
+        Test("misc", S_MISC, run_misc, {"quick": 6000, "thorough": 60000}, CFG),
     ] + c10_more.tests(tier)
